@@ -114,6 +114,21 @@ def rfc3339_native_crosscheck(replay=None):
                                 "cex": [{"model": {"s": s}}], "paths": n}
         if abs(real(date + "Z").timestamp() - base) > 1e-6:
             return {"status": "refuted", "message": "Z form wrong for %s" % date, "cex": [{"model": {"s": date + "Z"}}], "paths": n}
+    # any number of fraction digits (RFC 3339 time-secfrac = "." 1*DIGIT) and the lower case forms of T and Z
+    base = calendar.timegm((2020, 1, 1, 10, 0, 0))
+    for frac, val in (("1", 0.1), ("123456", 0.123456), ("1234567", 0.1234567), ("123456789", 0.123456789), ("000000001", 0.000000001), ("999999999", 0.999999999)):
+        for tail, off in (("Z", 0), ("z", 0), ("+05:30", 19800), ("-00:01", -60)):
+            for sep in ("T", "t"):
+                s = "2020-01-01" + sep + "10:00:00." + frac + tail
+                n += 1
+                try:
+                    got = real(s).timestamp()
+                except Exception as e:
+                    return {"status": "refuted", "message": "parse_rfc3339_datetime(%r) raised %s: a legal RFC 3339 timestamp is not recognised" % (s, type(e).__name__),
+                            "cex": [{"model": {"s": s}}], "paths": n}
+                if abs(got - (base + val - off)) > 1.1e-6:
+                    return {"status": "refuted", "message": "parse_rfc3339_datetime(%r).timestamp() = %r, expected %r" % (s, got, base + val - off),
+                            "cex": [{"model": {"s": s}}], "paths": n}
     if replay is not None:
         return {"reproduced": False, "reason": "cross-check passes"}
     return {"status": "confirmed", "message": "%d concrete timestamps agree" % n, "paths": n, "queries": 0}
